@@ -56,7 +56,7 @@ claimed = {
    note="Timing clauses decided one-sidedly: idle gaps and stalls are many multiples of T8; 'slow but steady' and segmentation cases carry a measured max-gap premise and are discarded when the harness itself stalled.",
    technique="differential runtime monitor (reference frame acceptor) + segmenting/stalling raw peer with delivery oracle and allocation meter; race detector"),
  "C11": dict(level=F,
-   text="368 (quick) / ~2600 (thorough: both TCP roles for every role-agnostic fault, and every fault once more with delays injected at the recovery machinery's suspension points) single link faults, each on a fresh real connection: FIN and RST cuts after exactly k bytes read/written for every k of the 14-byte prefix of every exchange (select both ways, data primary/reply/peer primary, linktest both ways) plus body offsets; stalls covered by T6/T7/T8/write timeout/linktest (the linktest stall also with local traffic going out; the write-timeout stall also for a control frame on a socket that takes no bytes, and with every call carrying a deadline shorter than the write timeout), each to be ended by the covering timer and not by a longer one, the T8 stall placed after every K=1..16 bytes of a frame; Select.rsp status 2..255; 0..8 refused dials / failed listens over a back-off configuration grid, also with a redundant (refused) Open in the middle of the outage. Recovery to Selected + round trip within 6 connection opportunities; requested reconnect delays (hook) vs the reference sequence; re-dial gaps (sound direction); Reconnects(); no dial after Close. Pure back-off function over a grid incl. overflow/Inf/NaN." + HELD,
+   text="380 (quick) / ~2620 (thorough: both TCP roles for every role-agnostic fault, and every fault once more with delays injected at the recovery machinery's suspension points) single link faults, each on a fresh real connection: FIN and RST cuts after exactly k bytes read/written for every k of the 14-byte prefix of every exchange (select both ways, data primary/reply/peer primary, linktest both ways) plus body offsets; stalls covered by T6/T7/T8/write timeout/linktest (the linktest stall also with local traffic going out; the write-timeout stall also for a control frame on a socket that takes no bytes, and with every call carrying a deadline shorter than the write timeout), each to be ended by the covering timer and not by a longer one, the T8 stall placed after every K=1..16 bytes of a frame; Select.rsp status 2..255; 0..8 refused dials / failed listens over a back-off configuration grid, also with a redundant (refused) Open in the middle of the outage. Recovery to Selected + round trip within 6 connection opportunities; requested reconnect delays (hook) vs the reference sequence; re-dial gaps (sound direction); Reconnects(); no dial after Close. Pure back-off function over a grid incl. overflow/Inf/NaN." + HELD,
    note="'Eventually' is decided as bounded progress (6 opportunities). hsmsss transport; SECS-I line cuts are exercised by C18's middlebox, not here.",
    technique="fault enumeration by a byte-exact cutting/stalling peer + hook-reported back-off delays vs reference sequence"),
  "C12": dict(level=E,
